@@ -1098,6 +1098,109 @@ fn cmd_random(out: &str, steps: usize, seed: u64) {
     println!("{{\"segments\":{},\"steps\":{},\"fvs_steps\":{},\"events\":{}}}", seg, done, fvs_steps, tr.n);
 }
 
+// ------------------------------------------------------------------------------------------------
+// deterministic, targeted scenarios: every (transport x entry point x outcome) pair that the coverage gates of
+// checks/transport.py ask for is produced here on purpose, independent of any seed
+
+fn laid_out(tr: &'static str, rlens: &[usize], wlens: &[usize], name: &str) -> Scn {
+    let base: u64 = if tr == "fusedev" { 0x2000 } else { DBASE };
+    let mut at = 64u64;
+    let mut segs = Vec::new();
+    for (lens, w) in [(rlens, false), (wlens, true)] {
+        for &l in lens {
+            segs.push((base + at, l, w));
+            at += l as u64 + 64;
+        }
+    }
+    let total = ((at as usize + 64) / PAGE as usize + 1) * PAGE as usize;
+    Scn { tr, segs, regions: vec![(base, total)], src_size: 300, src_salt: 41, sink_size: 4096, origin: format!("targeted:{}", name) }
+}
+
+fn top(o: usize, op: &str, n: usize, x: u64, c: usize, sl: Vec<usize>) -> Op {
+    Op { o, op: op.to_string(), n, x, c, v: ((n * 7 + op.len() * 13 + 3) % 251) as u8, sl }
+}
+
+fn cmd_targeted(out: &str) {
+    let mut tr = Trace::create(out);
+    let mut list: Vec<(Scn, Vec<Op>)> = Vec::new();
+    let asy = async_mode();
+    let wops: &[&str] = if asy {
+        &["async_write", "async_write2", "async_write3", "async_write_all", "async_write_from_at"]
+    } else {
+        &["write", "write_vectored", "write_obj", "write_all", "write_from", "write_from_at", "write_all_from"]
+    };
+    let rops: &[&str] = if asy { &["async_read_to_at"] } else { &["read", "read_obj", "read_to", "read_to_at", "read_exact_to"] };
+    let commit = if asy { "async_commit" } else { "commit" };
+    for trn in ["virtio", "fusedev"] {
+        let (rl, wl): (&[usize], &[usize]) = if trn == "virtio" { (&[16, 16], &[16, 16]) } else { (&[32], &[32]) };
+        for &op in wops {
+            // writer 2 is split at 24 (a fusedev writer becomes buffered); the operation once with 8 bytes
+            // (fits, moves bytes), once with 16/24 bytes where 16 remain/14 remain ... (must be refused), commit
+            let sl_ok = if op == "write_vectored" { vec![3, 0, 3, 2] } else { vec![] };
+            let sl_wide = if op == "write_vectored" { vec![6, 5, 5, 8] } else { vec![] }; // first three fit, total does not
+            let big = if op == "write_vectored" { 24 } else { 100 };
+            let nbig = if op == "write_obj" { 2048 } else { big };
+            list.push((
+                laid_out(trn, rl, wl, &format!("{}-{}", trn, op)),
+                vec![
+                    top(2, "split_at", 24, 0, 0, vec![]),
+                    top(2, op, 8, 3, 0, sl_ok),
+                    top(2, op, nbig, 5, 0, sl_wide),
+                    top(2, commit, 3, 0, 0, vec![]),
+                    top(3, commit, 0, 0, 0, vec![]),
+                ],
+            ));
+        }
+        for &op in rops {
+            list.push((
+                laid_out(trn, rl, wl, &format!("{}-{}", trn, op)),
+                vec![top(1, "split_at", 24, 0, 0, vec![]), top(1, op, 8, 40, 0, vec![]), top(3, op, 8, 100, 0, vec![]), top(1, "split_at", 1000, 0, 0, vec![])],
+            ));
+        }
+        // split_at that must fail on a writer
+        list.push((laid_out(trn, rl, wl, &format!("{}-split", trn)), vec![top(2, "split_at", 1000, 0, 0, vec![]), top(2, "split_at", 0, 0, 0, vec![])]));
+    }
+    if asy {
+        // whole scatter lists of 7 unequal segments through the crate's own async File, both directions
+        let lens = [16usize, 16, 16, 16, 5, 9, 13];
+        let total: usize = lens.iter().sum();
+        list.push((
+            laid_out("virtio", &lens, &lens, "virtio-scatter-async-file"),
+            vec![top(1, "async_read_to_at", total, 100, 0, vec![]), top(2, "async_write_from_at", total, 3, 0, vec![])],
+        ));
+        let l3 = [8usize, 24, 16];
+        list.push((
+            laid_out("virtio", &l3, &l3, "virtio-scatter3-async-file"),
+            vec![top(1, "async_read_to_at", 48, 100, 0, vec![]), top(2, "async_write_from_at", 48, 0, 0, vec![])],
+        ));
+    } else {
+        // page geometry for C17: a write that straddles a page border, one that starts and ends on borders, a single byte
+        let b = DBASE;
+        let sc = Scn {
+            tr: "virtio",
+            segs: vec![(b + 64, 8, false), (b + PAGE - 10, 20, true), (b + 2 * PAGE, PAGE as usize, true), (b + 4 * PAGE + 77, 1, true)],
+            regions: vec![(b, 6 * PAGE as usize)],
+            src_size: 300,
+            src_salt: 41,
+            sink_size: 4096,
+            origin: "targeted:virtio-page-geometry".into(),
+        };
+        list.push((sc, vec![top(2, "write", 20, 0, 0, vec![]), top(2, "write_all", PAGE as usize, 0, 0, vec![]), top(2, "write", 1, 0, 0, vec![]), top(2, "commit", 0, 0, 0, vec![])]));
+    }
+    let mut seg = 0u64;
+    let mut steps = 0usize;
+    for (sc, ops) in list {
+        seg += 1;
+        steps += run_scn(&sc, &mut FixedOps { ops, i: 0 }, &mut tr, seg);
+    }
+    if !asy {
+        seg += 1;
+        steps += fvs::run_scripted(&mut tr, seg);
+    }
+    tr.flush();
+    println!("{{\"segments\":{},\"steps\":{},\"events\":{}}}", seg, steps, tr.n);
+}
+
 fn main() {
     std::panic::set_hook(Box::new(|_| {})); // panics of the code under test are data
     let args: Vec<String> = std::env::args().collect();
@@ -1105,7 +1208,12 @@ fn main() {
     match args.get(1).map(|s| s.as_str()) {
         Some("replay") => cmd_replay(&args[2], &args[3]),
         Some("random") => cmd_random(&args[2], args[3].parse().unwrap(), seed),
-        Some("replay-async") | Some("random-async") if !cfg!(feature = "async") => {
+        Some("targeted") => cmd_targeted(&args[2]),
+        Some("targeted-async") if cfg!(feature = "async") => {
+            ASYNC_MODE.store(true, std::sync::atomic::Ordering::Relaxed);
+            cmd_targeted(&args[2])
+        }
+        Some("replay-async") | Some("random-async") | Some("targeted-async") if !cfg!(feature = "async") => {
             eprintln!("this binary was built without the cargo feature `async`");
             std::process::exit(2);
         }
